@@ -64,6 +64,11 @@ CHECKS['C13'] = dict(
    text='179 run-time words + 10 templates x all tuples of arity 0..3 over an 11 (quick) / 15 (thorough) value alphabet x every non-empty subset of tagged positions x 4 tag maps (empty, {k:v}, tags-on-tags, #fmt) x nested-tag variants: same result class, equal results, same output, provenance rule for tags in results; tag words checked by sequences of <= 2/3 operations against a model.',
    note='Stack residue after a failing word is not compared; #fmt is withheld from the words that honour it by design; values outside the alphabet and arity > 3 not covered.',
    ref='DESIGN.md §4 C13')
+CHECKS['C10'] = dict(
+   technique='explicit-state: BFS over interpreter states reachable by good / run-time-failing sources (complete dump as key); in every state every rejected source must be a no-op (identical dump, else named state + behaviour under all probes, both submission styles); exhaustive run-time-failure histories for re-execution',
+   text='States reachable by histories of 12 good and 4 run-time-failing sources to depth 2 (quick) / 3 (thorough) in both submission styles (eval; compile then run); in each state every one of ~750 (quick) / ~5000 (thorough) rejected sources (prefix leaving open structures or meta blocks x failing token x trailing text) is submitted both ways and must leave no trace; by induction any history with rejected sources deleted behaves identically. Plus all histories of length <= 2/3 containing a run-time failure followed by every probe: the failure marker prints exactly once and the two styles agree.',
+   note='Assumes equal complete dumps imply equal futures. Constants overwritten in place inside a rejected source, and the stack residue of a run-time failure, are outside the check.',
+   ref='DESIGN.md §4 C10')
 
 NOT_BUILT = {}
 
